@@ -17,7 +17,7 @@ def closed_form(stamps, period, punit, unit, tol):
 
 class C13(Prop):
     id = 'C13'
-    rule_added = '25% of online cases after an earlier run + reset(); 25% of all cases on an object configured differently before. 12% with epoch-size integer time-stamps (beyond 2**53). The first stamp may be negative.'
+    rule_added = '25% of online cases after an earlier run + reset(); 25% of all cases on an object configured differently before. 12% with epoch-size integer time-stamps (beyond 2**53). The first stamp may be negative. 15% of the online runs contain an update that fails part-way (sample None), caught by the caller: the counter must equal the count with or without that stamp.'
     rule = ('time-stamp sequences of 1..50 stamps with dyadic gaps (on-period, exactly on either tolerance bound, '
             'just inside/outside, zero, huge) x period in {1 s, 500 ms, 2 s, 250000 us, 4 ms} x default unit in '
             '{s, ms, us} x tolerance in {0, 1/8, 1/4, 1/2, 1, 0.1 (kept away from the bounds)} x '
@@ -88,6 +88,8 @@ class C13(Prop):
         return {'period': [period, punit], 'unit': unit, 'tol': tol, 'stamps': epoch or [float(s) for s in stamps],
                 'mode': mode, 'text': rng.choice(FORMULAS), 'values': lang.gen_values(rng, n, 'small'),
                 'after_reset': self._after_reset,
+                # an update that fails part-way (its sample is None) at some position: the caller catches and goes on
+                'fail_at': (rng.randrange(1, n) if (mode.startswith('online') and n >= 3 and rng.random() < 0.15) else None),
                 'preconfig': ([period * rng.choice([1, 2]), punit, rng.choice([t for t in TOLS if t != tol])]
                               if rng.random() < 0.25 else None)}
 
@@ -133,13 +135,35 @@ class C13(Prop):
                     m.update(t0, [('x', 0.0)])
                 m.reset()
                 v.info['after-reset-runs'] = 1
-            if case['mode'].startswith('online'):
+            fail_at = case.get('fail_at')
+            if case['mode'].startswith('online') and fail_at is not None:
+                out = []
+                for i in range(n):
+                    if i == fail_at:
+                        try:
+                            m.update(stamps[i], [('x', None)])
+                            v.skip = 'the update without a number did not fail'
+                            return v
+                        except Exception:
+                            v.info['failing-update-in-the-run'] = 1
+                            continue
+                    out.append(m.update(stamps[i], [('x', vals[i])]))
+            elif case['mode'].startswith('online'):
                 out = [m.update(stamps[i], [('x', vals[i])]) for i in range(n)]
             else:
                 out = drive.values(m.evaluate({'time': list(stamps), 'x': list(vals)}))
             got = m.counter
         except Exception as e:
             v.bad('raises:' + type(e).__name__, '%r: raised %s: %s' % (case, type(e).__name__, e))
+            return v
+        if case.get('fail_at') is not None and case['mode'].startswith('online'):
+            # the statement does not say whether the stamp of a failed update was "supplied": both counts are
+            # admissible (with and without it), nothing else is; the values are not compared for this class
+            without = closed_form(stamps[:case['fail_at']] + stamps[case['fail_at'] + 1:], period, punit, unit, tol)
+            if got not in (exp, without):
+                v.bad('counter-after-failing-update', 'period=%s%s unit=%s tol=%s mode=%s stamps=%s, update #%d failed '
+                      '(sample None): counter=%r, expected %d (failed stamp counted) or %d (not counted)' % (
+                          period, punit, unit, tol, case['mode'], fmt(stamps, 20), case['fail_at'], got, exp, without))
             return v
         if got != exp:
             v.bad('counter', 'period=%s%s unit=%s tol=%s mode=%s stamps=%s: counter=%r, expected %d out-of-tolerance '
